@@ -306,6 +306,8 @@ struct Plan {
     sig_alg: u8,
     /// one more unknown signed attribute with a value of this many octets, and whether it is written first
     sized_extra: Option<(usize, bool)>,
+    /// this many further unknown signed attributes (distinct OIDs, one-octet values)
+    many_extras: usize,
     /// NULL parameters of the digest algorithm: bit 0 in SignedData.digestAlgorithms, bit 1 in SignerInfo.digestAlgorithm
     digest_null: u8,
 }
@@ -314,7 +316,7 @@ const ATTR_NAMES: [&str; 3] = ["ct", "md", "st"];
 
 impl Plan {
     fn base() -> Plan {
-        Plan { order: [0, 1, 2], extras: vec![], extras_first: false, st_gen: false, digest: DigestV::Ok, sig: SigV::Ok, ee: EeV::Plain, crl: CrlV::Plain, prof: ProfV::Ok, st_secs: T0 - 60, bst_secs: T0 - 60, sig_alg: 0, sized_extra: None, digest_null: 0 }
+        Plan { order: [0, 1, 2], extras: vec![], extras_first: false, st_gen: false, digest: DigestV::Ok, sig: SigV::Ok, ee: EeV::Plain, crl: CrlV::Plain, prof: ProfV::Ok, st_secs: T0 - 60, bst_secs: T0 - 60, sig_alg: 0, sized_extra: None, many_extras: 0, digest_null: 0 }
     }
     fn stated_ok(&self) -> bool { self.digest == DigestV::Ok && self.sig == SigV::Ok && self.ee.ok() && self.crl.ok() }
     fn all_ok(&self) -> bool { self.stated_ok() && self.prof == ProfV::Ok }
@@ -415,6 +417,7 @@ fn plan_attrs(fx: &Fx, p: &Plan) -> (Vec<Vec<u8>>, Vec<Vec<u8>>) {
     let extras: Vec<Vec<u8>> = p.extras.iter().map(|e| extra_attr(*e, p.bst_secs)).collect();
     let mut all = Vec::new();
     if p.extras_first { all.extend(extras.clone()); all.extend(mandatory.clone()) } else { all.extend(mandatory.clone()); all.extend(extras) }
+    for i in 0..p.many_extras { all.push(der::attribute(&[1, 3, 6, 1, 4, 1, 99999, 4, 100 + i as u64], &[der::octets(&[i as u8])])) }
     if let Some((n, first)) = p.sized_extra {
         let a = der::attribute(&[1, 3, 6, 1, 4, 1, 99999, 3, 9], &[der::octets(&(0..n).map(|i| (i * 3 + 2) as u8).collect::<Vec<_>>())]);
         if first { all.insert(0, a) } else { all.push(a) }
@@ -641,6 +644,104 @@ fn embedded_windows(cms: &[u8]) -> ((i64, i64), (i64, i64)) {
     ((t(&val.children[0]), t(&val.children[1])), (t(&ctbs.children[3]), t(&ctbs.children[4])))
 }
 
+//------------ BER respelling of one field of a DER object ----------------------------------------------
+
+#[derive(Clone, Debug, PartialEq, Eq, PartialOrd, Ord)]
+enum Spell {
+    /// definite length with one superfluous length octet
+    NonMinimal,
+    /// definite length written as 0x84 + four octets
+    Long4,
+    /// indefinite length + end-of-contents (constructed values only)
+    Indefinite,
+    /// primitive string written constructed, cut at these positions into OCTET STRING segments
+    Segments(Vec<usize>),
+}
+
+impl Spell {
+    fn name(&self) -> String {
+        match self { Spell::NonMinimal => "non-minimal-length".into(), Spell::Long4 => "4-octet-length".into(), Spell::Indefinite => "indefinite-length".into(),
+            Spell::Segments(c) => format!("constructed-{}-segments-cut-at-{:?}", c.len() + 1, c) }
+    }
+}
+
+/// Re-writes `node` (and nothing else) of the DER object `buf` in another BER spelling.
+fn respell(buf: &[u8], node: &der::Node, path: &mut Vec<usize>, target: &[usize], sp: &Spell) -> Vec<u8> {
+    if !target.starts_with(path) { return node.whole(buf).to_vec() }
+    let is_target = path.as_slice() == target;
+    let content: Vec<u8> = if node.constructed() {
+        let mut c = Vec::new();
+        for (i, ch) in node.children.iter().enumerate() { path.push(i); c.extend(respell(buf, ch, path, target, sp)); path.pop(); }
+        c
+    } else { node.content(buf).to_vec() };
+    if !is_target { return der::tlv(node.tag, &content) }
+    let n = content.len();
+    let mut out = Vec::new();
+    match sp {
+        Spell::NonMinimal => {
+            out.push(node.tag);
+            if n < 128 { out.extend([0x81, n as u8]) } else { let l = der::len_octets(n); out.push(l[0] + 1); out.push(0); out.extend(&l[1..]) }
+            out.extend(content);
+        }
+        Spell::Long4 => { out.push(node.tag); out.push(0x84); out.extend((n as u32).to_be_bytes()); out.extend(content) }
+        Spell::Indefinite => { out.push(node.tag); out.push(0x80); out.extend(content); out.extend([0, 0]) }
+        Spell::Segments(cuts) => {
+            let mut segs = Vec::new();
+            let mut prev = 0;
+            for &c in cuts.iter().chain(std::iter::once(&n)) { segs.extend(der::tlv(der::T_OCTSTR, &content[prev..c])); prev = c }
+            out = der::tlv(node.tag | 0x20, &segs);
+        }
+    }
+    out
+}
+
+/// All ways to cut `n` octets into `k` non-empty segments (cut positions).
+fn cuts_into(n: usize, k: usize) -> Vec<Vec<usize>> {
+    fn rec(start: usize, n: usize, left: usize, cur: &mut Vec<usize>, out: &mut Vec<Vec<usize>>) {
+        if left == 0 { out.push(cur.clone()); return }
+        for c in start..n { cur.push(c); rec(c + 1, n, left - 1, cur, out); cur.pop(); }
+    }
+    let mut out = Vec::new();
+    rec(1, n, k - 1, &mut Vec::new(), &mut out);
+    out
+}
+
+/// (field name, path, spellings) for a CMS SignedData object.
+fn cms_fields(buf: &[u8], full_sid: bool) -> Vec<(&'static str, Vec<usize>, Vec<Spell>)> {
+    let root = der::parse_one(buf, false).expect("object of the independent encoder parses");
+    let sd = &root.children[1].children[0];
+    let si_idx = sd.children.len() - 1;
+    let si = vec![1, 0, si_idx, 0];
+    let hdr = || vec![Spell::NonMinimal, Spell::Long4, Spell::Indefinite];
+    let with = |p: &[usize], i: usize| { let mut v = p.to_vec(); v.push(i); v };
+    let mut f: Vec<(&'static str, Vec<usize>, Vec<Spell>)> = vec![
+        ("ContentInfo", vec![], hdr()), ("content[0]", vec![1], hdr()), ("SignedData", vec![1, 0], hdr()), ("version", vec![1, 0, 0], vec![Spell::NonMinimal, Spell::Long4]),
+        ("digestAlgorithms", vec![1, 0, 1], hdr()), ("digestAlgorithm", vec![1, 0, 1, 0], hdr()), ("encapContentInfo", vec![1, 0, 2], hdr()),
+        ("eContentType", vec![1, 0, 2, 0], vec![Spell::NonMinimal, Spell::Long4]), ("eContent[0]", vec![1, 0, 2, 1], hdr()),
+        ("certificates[0]", vec![1, 0, 3], hdr()), ("Certificate", vec![1, 0, 3, 0], hdr()),
+        ("signerInfos", vec![1, 0, si_idx], hdr()), ("SignerInfo", si.clone(), hdr()), ("SignerInfo.version", with(&si, 0), vec![Spell::NonMinimal, Spell::Long4]),
+        ("SignerInfo.digestAlgorithm", with(&si, 2), hdr()), ("signedAttrs[0]", with(&si, 3), hdr()), ("signatureAlgorithm", with(&si, 4), hdr()),
+    ];
+    if si_idx == 5 { f.push(("crls[1]", vec![1, 0, 4], hdr())); f.push(("CertificateList", vec![1, 0, 4, 0], hdr())) }
+    // eContent OCTET STRING
+    let ec = &sd.children[2].children[1].children[0];
+    let mut sp = vec![Spell::NonMinimal, Spell::Long4];
+    for k in [1usize, 2, 3, 4, 17] { if ec.len >= k { sp.push(Spell::Segments((1..k).map(|i| i * ec.len / k).collect())) } }
+    f.push(("eContent", vec![1, 0, 2, 1, 0], sp));
+    // sid [0]: every split into 1..=4 segments (full) or a few, and 20 segments
+    let mut sp = vec![Spell::NonMinimal, Spell::Long4, Spell::Segments(vec![])];
+    if full_sid { for k in 2..=4 { sp.extend(cuts_into(20, k).into_iter().map(Spell::Segments)) } }
+    else { sp.extend([vec![1], vec![10], vec![19], vec![1, 2], vec![7, 14], vec![5, 10, 15]].map(Spell::Segments)) }
+    sp.push(Spell::Segments((1..20).collect()));
+    f.push(("sid[0]", with(&si, 1), sp));
+    // signature OCTET STRING
+    let mut sp = vec![Spell::NonMinimal, Spell::Long4];
+    for k in [1usize, 2, 3, 4, 16, 256] { sp.push(Spell::Segments((1..k).collect::<Vec<_>>().iter().map(|i| i * 256 / k).collect())) }
+    f.push(("signature", with(&si, 5), sp));
+    f
+}
+
+
 //------------ deterministic failure reporting ---------------------------------------------
 // Failures found on worker threads are collected and handed to the report in
 // sorted order, so that the (at most three) printed witnesses per oracle do
@@ -679,9 +780,9 @@ fn main() {
     //--- (a1) SignedMessage::create --------------------------------------------------------------
     {
         let sp = ctx.space("created.signed_message",
-            "SignedMessage::create for content sizes {0,1,1000,100000} x all validity windows (nb <= na) over 8 instants around the UTCTime/GeneralizedTime switches (1949/1950, 2049/2050), the epoch, T0, T0+600 and year 9999 x 10 evaluation instants (nb-1s, nb-1ns, nb, nb+1ns, midpoint, na-1ns, na, na+1ns, na+0.5s, na+1s) x 3 keys x {as created, re-decoded strict, re-decoded relaxed}: validates <=> signing key and nb <= t <= na; non-trivial = evaluations at a window boundary or under another key");
+            "SignedMessage::create for content sizes {0,1,1000,4095,4096,4097,65535,65536,65537,100000} x all validity windows (nb <= na) over 8 instants around the UTCTime/GeneralizedTime switches (1949/1950, 2049/2050), the epoch, T0, T0+600 and year 9999 x 10 evaluation instants (nb-1s, nb-1ns, nb, nb+1ns, midpoint, na-1ns, na, na+1ns, na+0.5s, na+1s) x 3 keys x {as created, re-decoded strict, re-decoded relaxed}: validates <=> signing key and nb <= t <= na; non-trivial = evaluations at a window boundary or under another key");
         let dom: Vec<i64> = vec![-631_152_001, -631_152_000, 0, T0, T0 + 600, 2_524_607_999, 2_524_608_000, 253_402_300_799];
-        let sizes: Vec<usize> = vec![0, 1, 1000, 100_000];
+        let sizes: Vec<usize> = vec![0, 1, 1000, 4095, 4096, 4097, 65_535, 65_536, 65_537, 100_000];
         let mut jobs = Vec::new();
         for (i, &nb) in dom.iter().enumerate() { for &na in &dom[i..] { for &n in &sizes { jobs.push((nb, na, n)) } } }
         let oc: Mutex<BTreeMap<&'static str, u64>> = Mutex::new(BTreeMap::new());
@@ -716,7 +817,7 @@ fn main() {
         sp.nontrivial(*nt.lock().unwrap());
         sp.set("instants", serde_json::json!(dom));
         sp.sample_str(|| "SignedMessage::create content=1000B window=[2524607999,2524608000] t=2524608000 key=signing strict -> validated".to_string());
-        sp.done(true, "36 windows x 4 sizes x 10 instants x 3 keys x 3 routes");
+        sp.done(true, "36 windows x 10 sizes x 10 instants x 3 keys x 3 routes");
     }
 
     //--- (a2) ProvisioningCms::create / PublicationCms::create ---------------------------------------
@@ -1510,6 +1611,97 @@ fn main() {
         sp.merge_outcomes(&oc.lock().unwrap());
         sp.sample_str(|| "foreign ee-window=2000..2100 crl-window=2000..2001 key=peer: validate() and validate_at(now) both reject".to_string());
         sp.done(true, &format!("{} EE option sets x 3 windows x 2 keys; {} TA certificates; {} messages x 2 keys x 4 routes", ee_opts.len(), tas.len(), jobs.len()));
+    }
+
+    //--- (b7) BER respellings of the CMS wrapper --------------------------------------------------------------------
+    {
+        let sp = ctx.space("ber.respelling",
+            "every field of the CMS wrapper of a DER message re-written in another BER spelling, one field at a time: non-minimal length, 4-octet length, indefinite length at ContentInfo, content [0], SignedData, version, digestAlgorithms, its member, encapContentInfo, eContentType, eContent [0], certificates [0], Certificate, crls [1], CertificateList, signerInfos, SignerInfo, its version, digestAlgorithm, signedAttrs [0], signatureAlgorithm; eContent and signature as constructed OCTET STRINGs of 1,2,3,4,16/17,256 segments; sid [0] constructed in every split into 1..=4 segments and in 20 segments (all-satisfied messages; a selection for violated ones). Messages: {all satisfied (3 and 6 signed attributes), every single violation}. Relaxed decoding: if the decoder admits the spelling the verdict must be the condition vector's (a validation error on an all-satisfied message is a violation, a decode error is counted per field); strict decoding: nothing with a violated condition may validate; nothing may panic; non-trivial = admitted respellings");
+        let mut plans: Vec<Plan> = vec![Plan::base()];
+        { let mut p = Plan::base(); p.extras = vec![Extra::Bst, Extra::Unk100, Extra::Unk200]; p.order = [2, 0, 1]; plans.push(p) }
+        for v in all_violations() { let mut p = Plan::base(); v.apply(&mut p); if p.sig == SigV::OverMandatoryOnly { p.extras = vec![Extra::Bst] } plans.push(p) }
+        let admitted: Mutex<BTreeMap<String, (u64, u64)>> = Mutex::new(BTreeMap::new());
+        let oc: Mutex<BTreeMap<&'static str, u64>> = Mutex::new(BTreeMap::new());
+        let nt = Mutex::new(0u64);
+        plans.par_iter().for_each(|p| {
+            let bytes = cache.build(&fx, p);
+            let Some(root) = der::parse_one(&bytes, false) else { return };
+            let mut local: BTreeMap<String, (u64, u64)> = BTreeMap::new();
+            let mut lo: BTreeMap<&'static str, u64> = BTreeMap::new();
+            let mut n_adm = 0u64;
+            for (fname, path, spells) in cms_fields(&bytes, p.all_ok()) { for spl in &spells {
+                let m = respell(&bytes, &root, &mut Vec::new(), &path, spl);
+                for via in [Via::Relaxed, Via::Strict] {
+                    let v = run(&m, &fx.peer, T0, via);
+                    sp.eval();
+                    let strict = via == Via::Strict;
+                    *lo.entry(match (&v, strict) { (Verdict::Accept, _) => "validated", (Verdict::Decode(_), false) => "not-admitted-relaxed", (Verdict::Decode(_), true) => "refused-strict", (Verdict::Panic(_), _) => "panic", _ => "rejected-at-validation" }).or_insert(0) += 1;
+                    let wit = || format!("{} field={fname} spelling={} (message of {} octets -> {})", p.witness(via), spl.name(), bytes.len(), m.len());
+                    match &v {
+                        Verdict::Panic(pn) => fail("C10.no_panic", wit(), pn.clone()),
+                        Verdict::Accept if !p.all_ok() => fail("C10.ber.reject", wit(), "a condition is violated but the respelled message validated"),
+                        Verdict::Invalid(e) if p.all_ok() && !strict => fail("C10.ber.accept", wit(), format!("all conditions hold and the decoder admitted the spelling, yet validation failed: {}", trunc(e, 160))),
+                        _ => {}
+                    }
+                    if !strict && p.all_ok() {
+                        let e = local.entry(fname.to_string()).or_insert((0, 0));
+                        if matches!(v, Verdict::Decode(_)) { e.1 += 1 } else { e.0 += 1; n_adm += 1 }
+                    }
+                }
+            }}
+            *nt.lock().unwrap() += n_adm;
+            let mut g = admitted.lock().unwrap();
+            for (k, (a, r)) in local { let e = g.entry(k).or_insert((0, 0)); e.0 += a; e.1 += r }
+            let mut g = oc.lock().unwrap(); for (k, v) in lo { *g.entry(k).or_insert(0) += v }
+        });
+        sp.merge_outcomes(&oc.lock().unwrap());
+        sp.nontrivial(*nt.lock().unwrap());
+        let adm = admitted.into_inner().unwrap();
+        sp.set("all_satisfied_relaxed_admitted_vs_refused_per_field", serde_json::json!(adm.iter().map(|(k, (a, r))| format!("{k}: {a} admitted, {r} refused at decode")).collect::<Vec<_>>()));
+        sp.sample_str(|| "all satisfied field=sid[0] spelling=constructed-3-segments-cut-at-[5, 10] relaxed -> validated".to_string());
+        sp.done(true, &format!("{} messages x 24 fields x their spellings (sid: 1162 splits for all-satisfied messages) x 2 decoders", plans.len()));
+    }
+
+    //--- (b8) the scale dimension: counts ----------------------------------------------------------------------------------
+    {
+        let sp = ctx.space("scale.counts",
+            "CRLs with N revoked entries (distinct serials 1000, 1001, ...; every third entry with extensions), N in 0..=40 and the neighbourhoods of 64, 128, 256, 1024, 4096, with the EE serial absent / first / in the middle / last: validates <=> absent; messages with K further unknown signed attributes, K in 0..=40, 63..=65, 127..=129, 255..=257 (attributes from 107 to ~5000 octets): validate, and with a wrong digest do not; strict and relaxed; non-trivial = all");
+        let counts: Vec<usize> = { let mut v: Vec<usize> = (0..=40).collect(); for p in [64usize, 128, 256, 1024, 4096] { v.extend([p - 1, p, p + 1]) } v };
+        let oc: Mutex<BTreeMap<&'static str, u64>> = Mutex::new(BTreeMap::new());
+        let base = Plan::base();
+        let ps = presign(&fx, &base);
+        let ee = cache.ee(&fx, &base);
+        let mut jobs: Vec<(usize, Option<usize>)> = Vec::new();
+        for &n in &counts { jobs.push((n, None)); for pos in [0, n / 2, n] { jobs.push((n, Some(pos))) } }
+        jobs.sort(); jobs.dedup();
+        jobs.par_iter().for_each(|&(n, ee_pos)| {
+            let mut list: Vec<(Vec<u8>, bool)> = (0..n).map(|i| (((1000 + i) as u32).to_be_bytes()[1..].to_vec(), i % 3 == 0)).collect();
+            if let Some(pos) = ee_pos { list.insert(pos, (EE_SERIAL.to_vec(), false)) }
+            let c = CrlSpec { this: T0 - W, next: T0 + W, sign_key: K_PEER, revoked: Some(list), aki: Some(s.key(K_PEER).ski.to_vec()), number: Some(3), unknown_ext: false, ext_block: true, ign: CrlIgn::DEFAULT, ee_serial: EE_SERIAL.to_vec() };
+            let bytes = wrap(&fx, &base, &ps, false, &ee, &crl(s, &c));
+            for via in [Via::Strict, Via::Relaxed] {
+                let v = run(&bytes, &fx.peer, T0, via);
+                sp.eval(); sp.nontrivial(1); *oc.lock().unwrap().entry(v.class()).or_insert(0) += 1;
+                expect(&ctx, "C10.foreign.accept", "C10.foreign.product.reject", ee_pos.is_none(), &v, || format!("foreign order=ct,md,st extras=[] crl with {n} other revoked entries (serials 1000..), EE serial {} via={via:?} when=T0",
+                    ee_pos.map(|p| format!("inserted at position {p}")).unwrap_or("absent".into())));
+            }
+        });
+        let mut kjobs: Vec<(usize, bool)> = Vec::new();
+        for k in (0..=40usize).chain([63, 64, 65, 127, 128, 129, 255, 256, 257]) { kjobs.push((k, true)); kjobs.push((k, false)) }
+        let crl_der = cache.crl(&fx, &base);
+        kjobs.par_iter().for_each(|&(k, good)| {
+            let mut p = Plan::base(); p.many_extras = k; if !good { p.digest = DigestV::FlipLast }
+            let bytes = assemble(&fx, &p, &ee, &crl_der);
+            for via in [Via::Strict, Via::Relaxed] {
+                let v = run(&bytes, &fx.peer, T0, via);
+                sp.eval(); sp.nontrivial(1); *oc.lock().unwrap().entry(v.class()).or_insert(0) += 1;
+                expect(&ctx, "C10.attrs.size.accept", "C10.foreign.single.reject", good, &v, || format!("{} with {k} further unknown signed attributes", p.witness(via)));
+            }
+        });
+        sp.merge_outcomes(&oc.lock().unwrap());
+        sp.set("revoked_entry_counts", serde_json::json!(counts));
+        sp.sample_str(|| "crl with 17 other revoked entries, EE serial inserted at position 17 -> rejected".to_string());
+        sp.done(true, &format!("{} list lengths x 4 placements x 2 decoders; 50 attribute counts x 2 x 2 decoders", counts.len()));
     }
 
     //--- (c) every single-bit flip -------------------------------------------------------------------------------
